@@ -33,3 +33,8 @@ pub fn info_replace_by_clone(solver: &mut DefaultSolver<f64>) {
     let c = solver.info.clone();
     solver.info = c;
 }
+
+/// barrier degree of the composite cone (denominator of mu is degree + 1)
+pub fn cone_degree(solver: &DefaultSolver<f64>) -> usize {
+    solver.cones.degree()
+}
